@@ -33,7 +33,7 @@ ASSUMPTIONS = [
 ]
 
 POOL = {
-    "A-full": {"name": "a", "grid_n": 3, "n_mazes": 4, "ctor": "gen_dfs", "kwargs": {}, "seed": 1},
+    "A-full": {"name": "a.v2", "grid_n": 3, "n_mazes": 4, "ctor": "gen_dfs", "kwargs": {}, "seed": 1},
     "B-full-filters": {"name": "b", "grid_n": 4, "n_mazes": 6, "ctor": "gen_dfs_percolation", "kwargs": {"p": 0.3}, "seed": 2,
                        "filters": [{"name": "path_length", "args": [], "kwargs": {"min_length": 4}}]},
     "C-minimal": {"name": "c", "grid_n": 3, "n_mazes": 100, "ctor": "gen_dfs", "kwargs": {}, "seed": 3},
@@ -51,6 +51,31 @@ def _from_config(spec, td, **kw):
     from maze_dataset import MazeDataset
 
     return MazeDataset.from_config(L.make_cfg(spec), local_base_path=td, do_download=False, **kw)
+
+
+def _edit_in_place(cfg, spec) -> None:
+    """the caller turns the configuration object it holds into the configuration `spec` describes: scalar fields are assigned, containers
+    are emptied and refilled through their own methods (the object keeps its identity and the identity of its containers)"""
+    want = L.make_cfg(spec)
+    for fld in ("name", "grid_n", "n_mazes", "maze_ctor", "seed"):
+        setattr(cfg, fld, getattr(want, fld))
+    for fld in ("maze_ctor_kwargs", "endpoint_kwargs"):
+        d = getattr(cfg, fld)
+        d.clear()
+        d.update(getattr(want, fld))
+    cfg.applied_filters[:] = list(want.applied_filters)
+    assert L.cfg_fields(cfg) == L.cfg_fields(want), "harness: in-place edit did not reach the target configuration"
+
+
+# pairs of configurations that differ little and are requested one after the other from one directory: [first, second]
+PAIRS = [
+    [{"name": "m.v1", "grid_n": 3, "n_mazes": 4, "ctor": "gen_dfs", "kwargs": {}, "seed": 1}, {"name": "m.v2", "grid_n": 3, "n_mazes": 4, "ctor": "gen_dfs", "kwargs": {}, "seed": 1}],
+    [{"name": "m.v2", "grid_n": 3, "n_mazes": 4, "ctor": "gen_dfs", "kwargs": {}, "seed": 1}, {"name": "m.v2", "grid_n": 3, "n_mazes": 4, "ctor": "gen_dfs", "kwargs": {}, "seed": 2}],
+    [{"name": "m.v2.final", "grid_n": 3, "n_mazes": 4, "ctor": "gen_wilson", "kwargs": {}, "seed": 1}, {"name": "m.v2.final", "grid_n": 4, "n_mazes": 4, "ctor": "gen_wilson", "kwargs": {}, "seed": 1}],
+    [{"name": "k", "grid_n": 2, "n_mazes": 1100, "ctor": "gen_dfs", "kwargs": {}, "seed": 1}, {"name": "k", "grid_n": 2, "n_mazes": 1100, "ctor": "gen_dfs", "kwargs": {}, "seed": 2}],
+    [{"name": "k", "grid_n": 2, "n_mazes": 1100, "ctor": "gen_dfs", "kwargs": {}, "seed": 1}, {"name": "k", "grid_n": 2, "n_mazes": 1100, "ctor": "gen_dfs", "kwargs": {"do_forks": False}, "seed": 1}],
+    [{"name": "k-1", "grid_n": 2, "n_mazes": 12, "ctor": "gen_dfs", "kwargs": {}, "seed": 1}, {"name": "k-1", "grid_n": 2, "n_mazes": 12, "ctor": "gen_dfs", "kwargs": {}, "seed": 1, "endpoint": {"endpoints_not_equal": True}}],
+]
 
 
 def _fp(ds):
@@ -310,6 +335,42 @@ def check(case: dict):
             res = _verify_request(sig, second, td, path2, fresh2, allow_mismatch_error=True)
             labels.append(res)
             return {"nt": True, "labels": labels}
+        elif kind == "pair":
+            # two configurations that differ little, requested one after the other from one directory: each request returns its own
+            # configuration's data and leaves its own loadable file (nothing foreign lies under either name, so neither may be refused)
+            first, second = PAIRS[fault["i"] % len(PAIRS)]
+            if fault.get("swap"):
+                first, second = second, first
+            for sp in (first, second, first):
+                fr = _fp(_from_config(sp, "unused", load_local=False, save_local=False))
+                _verify_request(sig, sp, td, os.path.join(td, L.make_cfg(sp).to_fname() + ".zanj"), fr)
+            return {"nt": True, "labels": labels + [f"pair{fault['i'] % len(PAIRS)}"]}
+        elif kind == "edited-config":
+            # one configuration object: requested while it described a neighbouring configuration, edited in place by the caller to the
+            # configuration at hand, requested again. The second request is a request for the configuration the object holds *now*.
+            from maze_dataset import MazeDataset
+
+            other = L.json_copy(spec)
+            fld = fault["field"]
+            _vary(other, fld)
+            labels.append(f"field:{fld}")
+            obj = L.make_cfg(other)
+            try:
+                MazeDataset.from_config(obj, local_base_path=td, do_download=False)
+            except Exception as e:  # noqa: BLE001
+                core.discard_if_unsatisfiable(e, f"C11:edited-config:{fld}:first-request")
+            other_fp = _fp(_from_config(other, "unused", load_local=False, save_local=False)) if fld == "n_mazes" else None
+            _edit_in_place(obj, spec)
+            try:
+                ds = MazeDataset.from_config(obj, local_base_path=td, do_download=False)
+            except Exception as e:  # noqa: BLE001
+                raise Violation(f"{sig}:{fld}:request-raises:{type(e).__name__}", str(e)[:300]) from e
+            got = _fp(ds)
+            require(got == fresh or (other_fp is not None and got == other_fp), f"{sig}:{fld}:wrong-data",
+                    f"the request with the edited configuration object returned {len(got)} mazes that are not the fresh generation of the configuration it holds ({len(fresh)} mazes)")
+            _cfg_matches(f"{sig}:{fld}:returned-config-differs", spec, ds.cfg)
+            _verify_request(sig + f":{fld}", spec, td, path, fresh, alt=other_fp)
+            return {"nt": True, "labels": labels}
         elif kind == "foreign":
             other = L.json_copy(spec)
             fld = fault["field"]
@@ -477,6 +538,12 @@ def _enumerated(keys, trunc_stride, corrupt_stride, modes, all_structure=True, n
             for j, fld in enumerate(FOREIGN_FIELDS):
                 if j % nshards == shard:
                     yield {"cfg": key, "fault": {"kind": "foreign", "field": fld}}
+                if (j + 5) % nshards == shard:
+                    yield {"cfg": key, "fault": {"kind": "edited-config", "field": fld}}
+            if key == keys[0]:
+                for j in range(2 * len(PAIRS)):
+                    if (j + 3) % nshards == shard:
+                        yield {"cfg": key, "fault": {"kind": "pair", "i": j // 2, "swap": bool(j % 2)}}
             for j in range(n_collisions):
                 if (j + 9) % nshards == shard:
                     yield {"cfg": key, "fault": {"kind": "collision", "skip": j // 2, "swap": bool(j % 2)}}
